@@ -38,60 +38,61 @@ def C(**kw):
 
 
 # design configurations: (name, constants, also check the repaired design?)
+F5 = dict(Fields=ALL_FIELDS, InFlight=True, AtRest=True, TrackWrote=True)
+
 PROFILES = {
     "C16": {
         "quick": dict(
-            design=[("2 nodes, leader change + conflicting suffix", C(MaxTerm=2, MaxTT=1), True),
-                    ("2 nodes, head truncation + blocked ReportFn", C(MaxIdx=3, MaxTH=1, MaxBlock=1), True)],
+            design=[("2 nodes, 4 indexes: leader change + conflicting suffix", C(MaxTerm=2, MaxTT=1), True),
+                    ("2 nodes, 3 indexes: head truncation + blocked ReportFn", C(MaxIdx=3, MaxTH=1, MaxBlock=1), True)],
             sim=C(N=3, MaxIdx=6, MaxCp=3, MaxTerm=3, MaxTT=2, MaxTH=1, MaxSnap=1, MaxRestart=1, MaxBlock=1, MaxFail=1,
                   MaxSteps=16),
             nsim=50, emit_every=12, ncex=30, nint=40, wal_share=8, tlc_timeout=150),
         "thorough": dict(
-            design=[("2 nodes, leader change + conflicting suffix + snapshot install + restart",
+            design=[("2 nodes, 3 indexes: leader change + conflicting suffix + head truncation + snapshot install + blocked ReportFn",
+                     C(MaxIdx=3, MaxTerm=2, MaxTT=1, MaxTH=1, MaxBlock=1, MaxSnap=1), True),
+                    ("2 nodes, 4 indexes: leader change + conflicting suffix + snapshot install + restart",
                      C(MaxTerm=2, MaxTT=1, MaxSnap=1, MaxRestart=1), True),
-                    ("2 nodes, head truncation + blocked ReportFn + restart", C(MaxTH=1, MaxBlock=1, MaxRestart=1), True),
-                    ("3 nodes, leader change + conflicting suffix", C(N=3, MaxIdx=3, MaxTerm=2, MaxTT=1), True)],
+                    ("2 nodes, 4 indexes: head truncation + blocked ReportFn + restart", C(MaxTH=1, MaxBlock=1, MaxRestart=1), True),
+                    ("3 nodes, 4 indexes: leader change + conflicting suffix", C(N=3, MaxTerm=2, MaxTT=1, MaxBatch=1), True),
+                    ("2 nodes, 5 indexes, 3 checkpoints: leader change + conflicting suffix",
+                     C(MaxIdx=5, MaxCp=3, MaxTerm=2, MaxTT=1), True)],
             sim=C(N=3, MaxIdx=6, MaxCp=3, MaxTerm=3, MaxTT=3, MaxTH=2, MaxSnap=1, MaxRestart=1, MaxBlock=2, MaxFail=1,
                   MaxSteps=20),
-            nsim=1200, emit_every=60, ncex=300, nint=500, wal_share=6, tlc_timeout=400),
+            nsim=1000, emit_every=60, ncex=300, nint=500, wal_share=6, tlc_timeout=130, heap="8g"),
     },
     "C17": {
         "quick": dict(
-            design=[("2 nodes, 1 corruption (any field, in flight / at rest), restart",
-                     C(MaxIdx=3, MaxRestart=1, MaxCorrupt=1, Fields=ALL_FIELDS, InFlight=True, AtRest=True, TrackWrote=True,
-                       CfgAt1=False), False),
-                    ("bootstrap entries", C(MaxIdx=2, MaxCorrupt=1, Fields=ALL_FIELDS, InFlight=True, AtRest=True,
-                                            TrackWrote=True), False)],
-            sim=C(N=3, MaxIdx=6, MaxCp=3, MaxTerm=2, MaxRestart=1, MaxCorrupt=2, MaxTH=1, Fields=ALL_FIELDS, InFlight=True,
-                  AtRest=True, MaxSteps=14),
+            design=[("2 nodes, 3 indexes, restart, 1 corruption (any field, in flight / at rest)",
+                     C(MaxIdx=3, MaxRestart=1, MaxCorrupt=1, CfgAt1=False, **F5), False),
+                    ("2 nodes, 2 indexes, bootstrap entries, 1 corruption", C(MaxIdx=2, MaxCorrupt=1, **F5), False)],
+            sim=C(N=3, MaxIdx=6, MaxCp=3, MaxTerm=2, MaxRestart=1, MaxCorrupt=2, MaxTH=1, MaxSteps=14, **F5),
             nsim=50, emit_every=10, ncex=30, nint=120, wal_share=8, tlc_timeout=150),
         "thorough": dict(
-            design=[("2 nodes, 4 indexes, 1 corruption, restart",
-                     C(MaxIdx=4, MaxRestart=1, MaxCorrupt=1, Fields=ALL_FIELDS, InFlight=True, AtRest=True, TrackWrote=True), False),
-                    ("2 nodes, leader change, 1 corruption",
-                     C(MaxIdx=3, MaxTerm=2, MaxCorrupt=1, Fields=ALL_FIELDS, InFlight=True, AtRest=True, TrackWrote=True), False),
-                    ("3 nodes, 1 corruption",
-                     C(N=3, MaxIdx=3, MaxCorrupt=1, Fields=ALL_FIELDS, InFlight=True, AtRest=True, TrackWrote=True, MaxBatch=1,
-                       CfgAt1=False), False)],
-            sim=C(N=3, MaxIdx=6, MaxCp=3, MaxTerm=2, MaxRestart=1, MaxCorrupt=2, MaxTH=1, Fields=ALL_FIELDS, InFlight=True,
-                  AtRest=True, MaxSteps=18),
-            nsim=1200, emit_every=60, ncex=300, nint=1000, wal_share=6, tlc_timeout=400),
+            design=[("2 nodes, 4 indexes, leader change, restart, 1 corruption (any field, in flight / at rest)",
+                     C(MaxIdx=4, MaxTerm=2, MaxRestart=1, MaxCorrupt=1, **F5), False),
+                    ("3 nodes, 4 indexes, 1 corruption", C(N=3, MaxIdx=4, MaxCorrupt=1, MaxBatch=1, CfgAt1=False, **F5), False),
+                    ("2 nodes, 5 indexes, 3 checkpoints, 1 corruption", C(MaxIdx=5, MaxCp=3, MaxCorrupt=1, CfgAt1=False, **F5), False)],
+            sim=C(N=3, MaxIdx=6, MaxCp=3, MaxTerm=2, MaxRestart=1, MaxCorrupt=2, MaxTH=1, MaxSteps=18, **F5),
+            nsim=1000, emit_every=120, ncex=300, nint=1000, wal_share=6, tlc_timeout=220, heap="8g"),
     },
     "C18": {
         "quick": dict(
-            design=[("1 node, every goroutine schedule, blocked ReportFn, foreign checkpoint, failing store",
+            design=[("1 node, 5 indexes, 4 checkpoints: every goroutine schedule, blocked ReportFn, foreign checkpoint, failing store",
                      C(N=1, MaxIdx=5, MaxCp=4, MaxBlock=2, MaxForeign=1, MaxFail=1, Eager=False), False)],
             sim=C(N=2, MaxIdx=8, MaxCp=6, MaxTerm=2, MaxTT=1, MaxTH=1, MaxRestart=1, MaxBlock=3, MaxForeign=1, MaxFail=1,
                   MaxSteps=20),
             nsim=50, emit_every=10, ncex=30, nint=80, wal_share=8, tlc_timeout=150),
         "thorough": dict(
-            design=[("1 node, every goroutine schedule, head truncation, restart",
+            design=[("1 node, 5 indexes, 4 checkpoints: every goroutine schedule, head truncation, restart, foreign checkpoint, failing store",
                      C(N=1, MaxIdx=5, MaxCp=4, MaxBlock=2, MaxForeign=1, MaxFail=1, MaxTH=1, MaxRestart=1, Eager=False), False),
-                    ("2 nodes, blocked ReportFn on leader and follower",
+                    ("1 node, 7 indexes, 6 checkpoints: every goroutine schedule",
+                     C(N=1, MaxIdx=7, MaxCp=6, MaxBlock=3, MaxForeign=1, Eager=False), False),
+                    ("2 nodes, 4 indexes, 4 checkpoints: blocked ReportFn on leader and follower",
                      C(N=2, MaxIdx=4, MaxCp=4, MaxBlock=2, MaxForeign=1, MaxBatch=1, CfgAt1=False), False)],
             sim=C(N=3, MaxIdx=9, MaxCp=7, MaxTerm=2, MaxTT=1, MaxTH=2, MaxRestart=1, MaxBlock=4, MaxForeign=2, MaxFail=1,
                   MaxSteps=26),
-            nsim=1200, emit_every=60, ncex=300, nint=600, wal_share=6, tlc_timeout=400),
+            nsim=1000, emit_every=120, ncex=300, nint=600, wal_share=6, tlc_timeout=220, heap="8g"),
     },
 }
 
@@ -169,6 +170,9 @@ def design_run(consts, seed, timeout, emit_every=0, modes=(True,), heap="4g", pr
     r = tlc("Verifier", cfg, timeout=timeout * (4 if cover else 1), seed=seed, workers=WORKERS, heap=heap, coverage=cover)
     r.actions = action_coverage(r.out, consts) if cover else None
     if r.error == "timeout":
+        m = re.findall(r"Progress\(\d+\) at [^:]*:\d\d:\d\d: ([\d,]+) states generated .*?, ([\d,]+) distinct states found", r.out)
+        if m:
+            r.generated, r.distinct = int(m[-1][0].replace(",", "")), int(m[-1][1].replace(",", ""))
         log("design run hit its time limit after %d states (partial exploration)" % r.generated)
     elif r.error or r.violated:
         raise Inconclusive("Verifier.tla design run failed: %s %s\n%s" % (r.error, r.violated, r.out[-3000:]))
